@@ -137,6 +137,7 @@ impl Engine for VmEngine {
         let (mem, stack, calls) = match style {
             5 => (*rng.pick(&[2000usize, 4000, 8000, 20000]), 256, 256),
             6 => (409600, *rng.pick(&[4usize, 8, 16, 32]), *rng.pick(&[2usize, 4, 8])),
+            3 | 7 => (*rng.pick(&[409600usize, 20000]), *rng.pick(&[256usize, 24]), *rng.pick(&[256usize, 6, 12])),
             _ => (409600, 256, 256),
         };
         ops.push(format!("vm new mem={mem} stack={stack} calls={calls}"));
@@ -149,7 +150,16 @@ impl Engine for VmEngine {
                 0 => rng.range(0, 40) as usize,
                 _ => 1000,
             };
-            if style == 7 {
+            if style == 4 && rng.chance(1, 2) {
+                let b1 = rng.range(1, 60);
+                let extra = rng.range(1, 200);
+                let b2 = *rng.pick(&[b1 + 1, b1 + extra, 1000, 5000]);
+                ops.push(format!("vm budcheck {} budget={b1} budget2={b2}", module_tok(&m)));
+            } else if style == 3 && rng.chance(1, 2) {
+                let n = if tier == Tier::Quick { rng.range(2, 12) } else { rng.range(2, 40) };
+                ops.push(format!("vm repeat {} n={n} clear={} budget={budget}", module_tok(&m), rng.below(2)));
+                ops.push("vm stats".into());
+            } else if style == 7 {
                 // history: run / clear / run-and-compare-with-fresh
                 ops.push(format!("vm run {} budget={budget}", module_tok(&m)));
                 ops.push("vm clear".into());
@@ -179,6 +189,8 @@ impl Engine for VmEngine {
             // error inside a nested card: trace must name the failing card (F14)
             run("setglobal($67,callnative($6661696c,[]))", ""),
             run("setglobal($67,callnative($6e6f7065,[int(#1)]))", ""),
+            // known finding K2: == on a table that contains itself recurses without bound
+            run("setvar($74,table),setprop(readvar($74),readvar($74),int(#0)),setglobal($67,eq(readvar($74),readvar($74)))", ""),
             // nested budget (F9): a sort whose key function loops; the whole run has one budget
             vec!["vm new".to_string(), "vm run mod([],[fn($6d61696e,[],[setvar($74,array([int(#3),int(#1),int(#2),int(#5),int(#4)])),setglobal($67,call($7374642e736f727465645f62795f6b6579,[closure([$6b6579,$76616c],[setvar($63,int(#0)),while(less(readvar($63),int(#20)),composite($5f,[setvar($63,add(readvar($63),int(#1)))])),return(readvar($76616c))]),readvar($74)]))])],[]) budget=150".to_string(), "vm run mod([],[fn($6d61696e,[],[setglobal($67,int(#1))])],[]) budget=0".to_string()],
         ]
@@ -260,6 +272,56 @@ impl Engine for VmEngine {
                         }
                     },
                 },
+                // C17: the same program `n` times on this VM (with or without `clear` in between)
+                ("repeat", Some(vm)) => match parse_module(a[1]) {
+                    None => "bad-op".into(),
+                    Some(m) => match compile(m, None) {
+                        Err(e) => format!("compile-{}", show_cerr(&e)),
+                        Ok(prog) => {
+                            let n = kv(&a, "n", 10);
+                            let clear = kv(&a, "clear", 1) == 1;
+                            vm.max_instr = kv(&a, "budget", 1000) as u64;
+                            let mut first = String::new();
+                            let mut same = 0;
+                            let mut last = String::new();
+                            for i in 0..n {
+                                vm.get_aux_mut().clear();
+                                let res = vm.run(&prog);
+                                let full = show_outcome(vm, &prog, &res);
+                                let o = if clear { full } else { obs_part(&full) };
+                                if i == 0 {
+                                    first = o.clone();
+                                }
+                                if o == first {
+                                    same += 1;
+                                } else if last.is_empty() {
+                                    last = format!(" run{i}={{{o}}}");
+                                }
+                                if clear {
+                                    vm.clear();
+                                }
+                            }
+                            format!("first={{{first}}} same={same}/{n}{last}")
+                        }
+                    },
+                },
+                // C03: one program under two budgets on fresh VMs
+                ("budcheck", _) => match parse_module(a[1]) {
+                    None => "bad-op".into(),
+                    Some(m) => match compile(m, None) {
+                        Err(e) => format!("compile-{}", show_cerr(&e)),
+                        Ok(prog) => {
+                            let mut outs = vec![];
+                            for key in ["budget", "budget2"] {
+                                let mut v = new_vm(cfg.0, cfg.1, cfg.2);
+                                v.max_instr = kv(&a, key, 1000) as u64;
+                                let r = v.run(&prog);
+                                outs.push(show_outcome(&v, &prog, &r));
+                            }
+                            format!("A={{{}}} B={{{}}}", outs[0], outs[1])
+                        }
+                    },
+                },
                 ("clear", Some(vm)) => {
                     vm.clear();
                     "ok".into()
@@ -304,12 +366,34 @@ impl Engine for VmEngine {
                 let cur = r.split("cur={").nth(1).and_then(|x| x.split("} fresh={").next()).unwrap_or("");
                 let fr = r.split("} fresh={").nth(1).map(|x| x.trim_end_matches('}')).unwrap_or("");
                 if cur == fr { out.push(r.clone()) } else { out.push(format!("differs from a fresh VM: fresh={{{fr}}}")) }
+            } else if o.starts_with("vm repeat") && r.starts_with("first={") {
+                // C17: repeating a run (after clear: identical incl. accounted memory; without clear:
+                // identical observation whenever the first run succeeded) never changes the outcome
+                let clear = !o.contains(" clear=0");
+                let n = r.split(" same=").nth(1).and_then(|x| x.split(' ').next()).unwrap_or("");
+                let mut it = n.split('/');
+                let ok = it.next() == it.next();
+                if ok || (!clear && !r.starts_with("first={ok ")) { out.push(r.clone()) } else { out.push("every repetition gives the outcome of the first run".into()) }
+            } else if o.starts_with("vm budcheck") && r.starts_with("A={") {
+                // C03: dispatches <= budget for both; if neither run timed out, the outcomes are equal
+                let a = r.split("A={").nth(1).and_then(|x| x.split("} B={").next()).unwrap_or("");
+                let b = r.split("} B={").nth(1).map(|x| x.trim_end_matches('}')).unwrap_or("");
+                let disp = |x: &str| -> u64 { x.split(" disp=").nth(1).and_then(|y| y.split(' ').next()).and_then(|v| v.parse().ok()).unwrap_or(0) };
+                let bud = |k: &str| -> u64 { o.split(' ').find_map(|x| x.strip_prefix(k)).and_then(|v| v.parse().ok()).unwrap_or(1000) };
+                let timed = |x: &str| x.contains("Timeout");
+                if disp(a) > bud("budget=").max(1) || disp(b) > bud("budget2=").max(1) {
+                    out.push("dispatched instructions <= budget".into());
+                } else if !timed(a) && !timed(b) && a != b {
+                    out.push("two sufficient budgets give the same outcome".into());
+                } else {
+                    out.push(r.clone());
+                }
             } else if o == "vm stats" && ops.iter().zip(impl_out.iter()).position(|(oo, _)| std::ptr::eq(oo, o)).map(|i| i > 0 && ops[i - 1] == "vm clear").unwrap_or(false) {
                 // C05 / C17: a cleared VM accounts for no memory and owns no objects
                 if r.starts_with("alloc=0 ") && r.ends_with(" frames=0 stack=0 objs=0") { out.push(r.clone()) } else { out.push("after clear: alloc=0 frames=0 stack=0 objs=0 expected".into()) }
             } else if o.starts_with("vm run") && o.contains(" expect=ok") {
                 // C05: a program whose live data stays small must not run out of memory
-                if r.starts_with("ok ") { out.push("?".into()) } else { out.push("expected ok: the live data of this program is bounded".into()) }
+                if !r.contains("OutOfMemory") { out.push("?".into()) } else { out.push("no OutOfMemory expected: the live data of this program is bounded".into()) }
             } else if o.starts_with("vm run") && r.contains(" disp=") {
                 let budget: u64 = o.split(' ').find_map(|x| x.strip_prefix("budget=")).and_then(|v| v.parse().ok()).unwrap_or(1000);
                 let disp: u64 = r.split(" disp=").nth(1).and_then(|x| x.split(' ').next()).and_then(|v| v.parse().ok()).unwrap_or(0);
@@ -332,7 +416,18 @@ impl Engine for VmEngine {
                     }
                 }
             }
-            if o.starts_with("vm run") {
+            if o.starts_with("vm repeat") {
+                t.insert(format!("op:repeat{}", if o.contains(" clear=0") { "-noclear" } else { "" }));
+            }
+            if o.starts_with("vm budcheck") {
+                t.insert("op:budcheck".to_string());
+                if r.matches("Timeout").count() == 0 {
+                    t.insert("budcheck:both-complete".into());
+                } else if r.matches("Timeout").count() == 1 {
+                    t.insert("budcheck:one-timeout".into());
+                }
+            }
+            if o.starts_with("vm run ") {
                 let res = r.split(' ').next().unwrap_or("");
                 let res = res.split('(').next().unwrap_or("");
                 t.insert(format!("run:{res}"));
@@ -418,5 +513,115 @@ impl Engine for GcEngine {
     }
     fn nontrivial(&self, ops: &[String], _o: &[String]) -> bool {
         ops.iter().any(|o| o.len() > 150)
+    }
+}
+
+/// Engine `mem`: the memory ledger (C05). Histories of run/clear/stats on one VM with small
+/// limits and three program families: garbage-only loops (must never run out of memory),
+/// live data growing until the limit is hit, and tables grown across their capacity steps.
+pub struct MemEngine;
+
+fn hex(s: &str) -> String {
+    s.bytes().map(|b| format!("{b:02x}")).collect()
+}
+
+impl Engine for MemEngine {
+    fn name(&self) -> &'static str {
+        "mem"
+    }
+    fn gen(&self, rng: &mut Rng, tier: Tier, _idx: usize) -> Vec<String> {
+        let mem = *rng.pick(&[1500usize, 2500, 4000, 8000, 20000, 60000]);
+        let mut ops = vec![format!("vm new mem={mem} stack=64 calls=16")];
+        let rounds = rng.range(1, 4);
+        let big = if tier == Tier::Quick { 400 } else { 3000 };
+        let mut cleared = true;
+        for _ in 0..rounds {
+            let n = rng.range(2, big);
+            let family = rng.below(4);
+            let payload = |rng: &mut Rng| -> String {
+                match rng.below(4) {
+                    0 => format!("str(${})", hex(&"x".repeat(rng.range(0, 200) as usize))),
+                    1 => "table".to_string(),
+                    2 => format!("callnative($6d6b7461626c65,[str(${})])", hex(&"k".repeat(rng.range(1, 40) as usize))),
+                    _ => format!("closure([],[return(readvar($69))])"),
+                }
+            };
+            let (cards, expect) = match family {
+                // garbage only: each iteration overwrites the only reference to the previous object
+                0 => {
+                    let p = payload(rng);
+                    (format!("setvar($73,nil),repeat($69,int(#{n}),composite($5f,[setvar($73,{p})])),setglobal($67,int(#1))"), if mem >= 4000 { " expect=ok" } else { "" })
+                }
+                // live data grows: append to a global table until the limit is reached
+                1 => {
+                    let p = payload(rng);
+                    (format!("setvar($74,table),setglobal($67,readvar($74)),repeat($69,int(#{n}),composite($5f,[append({p},readvar($74))]))"), "")
+                }
+                // one table grown across capacity steps with integer keys, half of them removed again
+                2 => (format!("setvar($74,table),repeat($69,int(#{n}),composite($5f,[setprop(readvar($69),readvar($74),readvar($69))])),setglobal($67,len(readvar($74)))"), ""),
+                // garbage tables that were grown before being dropped
+                _ => {
+                    let k = rng.range(1, 40);
+                    (format!("setvar($74,nil),repeat($69,int(#{n}),composite($5f,[setvar($74,table),repeat($6a,int(#{k}),composite($5f,[setprop(readvar($6a),readvar($74),readvar($6a))]))])),setglobal($67,int(#1))"), if mem >= 20000 { " expect=ok" } else { "" })
+                }
+            };
+            let budget = 200000;
+            let expect = if cleared { expect } else { "" };
+            ops.push(format!("vm run mod([],[fn($6d61696e,[],[{cards}])],[]) budget={budget}{expect}"));
+            ops.push("vm stats".into());
+            // the globals of earlier runs stay live until `clear`: the bounded-live-data expectation
+            // is only attached to runs on a cleared machine
+            if rng.chance(2, 3) {
+                ops.push("vm clear".into());
+                ops.push("vm stats".into());
+                cleared = true;
+            } else {
+                cleared = false;
+            }
+        }
+        ops
+    }
+    fn timeout(&self) -> std::time::Duration {
+        std::time::Duration::from_secs(30)
+    }
+    fn run_impl(&self, ops: &[String], out: &mut Vec<String>) {
+        VmEngine.run_impl(ops, out)
+    }
+    /// accounted bytes never exceed the limit; the rest is the vm engine's oracle
+    fn run_spec(&self, ops: &[String], impl_out: &[String]) -> Option<Vec<String>> {
+        let mut sp = VmEngine.run_spec(ops, impl_out)?;
+        let mem: u64 = ops[0].split(' ').find_map(|x| x.strip_prefix("mem=")).and_then(|v| v.parse().ok()).unwrap_or(u64::MAX);
+        for (i, r) in impl_out.iter().enumerate() {
+            let alloc: Option<u64> = r.split("alloc=").nth(1).and_then(|x| x.split(' ').next()).and_then(|v| v.parse().ok());
+            if let Some(a) = alloc {
+                if a > mem && sp[i] == "?" {
+                    sp[i] = format!("accounted bytes {a} exceed the limit {mem}");
+                }
+            }
+        }
+        Some(sp)
+    }
+    fn tags(&self, ops: &[String], impl_out: &[String]) -> Vec<String> {
+        let mut t: Vec<String> = vec![];
+        for (o, r) in ops.iter().zip(impl_out.iter()) {
+            if o.starts_with("vm run") {
+                t.push(format!("run:{}", r.split(' ').next().unwrap_or("")));
+                if o.contains("expect=ok") {
+                    t.push("family:garbage-only".into());
+                }
+                if let Some(g) = r.split(" gcs=").nth(1) {
+                    let _ = g;
+                }
+            }
+            if o == "vm clear" {
+                t.push("op:clear".into());
+            }
+        }
+        t.sort();
+        t.dedup();
+        t
+    }
+    fn nontrivial(&self, ops: &[String], _o: &[String]) -> bool {
+        ops.len() >= 3
     }
 }
